@@ -1,7 +1,7 @@
 (** * C12  Recombination invents nothing (relation [cross_check], Ops.v). *)
 From Coq Require Import String.
 From Coq Require Import List ZArith NArith Bool.
-From Cambrian Require Import Base.F64 SourceFacts Syntax Ops OpsProofs.
+From Cambrian Require Import Base.F64 SourceFacts Syntax Ops OpsProofs MutProofs CrossProofs.
 Import ListNotations.
 
 (** with a single parent the offspring is that parent *)
@@ -34,6 +34,31 @@ Proof.
       apply in_combine_r in Hin. exact Hin.
 Qed.
 Print Assumptions crossover_leaf_from_parent.
+
+(** whole tree: every leaf (real, int, bool, enum) of the offspring, at any depth and under any
+    path of member names / indices / map keys / variant options, is the leaf at the same path of
+    one of the parents; in particular every map key and variant option of the offspring occurs in
+    a parent *)
+Theorem crossover_leaves_from_parents :
+  forall cp pr s ps child p lf,
+    wf s = true -> cross_check cp pr s ps child = true ->
+    leaf_at child p = Some lf -> is_leaf_value lf = true ->
+    exists x, In x ps /\ leaf_at x p = Some lf.
+Proof. exact crossover_provenance. Qed.
+Print Assumptions crossover_leaves_from_parents.
+
+(** ... and the offspring of conforming parents conforms *)
+Theorem crossover_offspring_conforms :
+  forall fr cp pr s ps child,
+    (forall p, In p ps -> conforms_g fr s p = true) -> cross_check cp pr s ps child = true ->
+    conforms_g fr s child = true.
+Proof. exact crossover_conforms. Qed.
+Print Assumptions crossover_offspring_conforms.
+
+Example leaf_at_example :
+  leaf_at (VSub [("a"%string, VAnonMap [(3%N, VVariant "o"%string (VOptional (Some (VArray [VBool true; VBool false]))))])])
+          [PName "a"%string; PKey 3%N; PName "o"%string; POpt; PIdx 1%nat] = Some (VBool false).
+Proof. vm_compute. reflexivity. Qed.
 
 Example mixing_is_accepted :
   cross_check fone (of_bits 0x3FE0000000000000) (SSub [("a"%string, SBool true); ("b"%string, SBool true)])
